@@ -68,6 +68,21 @@ def _jobs_store_family(oracles, family_untimed, family_timed, tier, stores_untim
     return jobs
 
 
+def _jobs_item_kinds(oracles, family, tier):
+    """the same histories with flow items that compare equal although they are distinct objects, and with items whose truth value is False"""
+    q = tier == "quick"
+    jobs = []
+    for s in ("RPRS", "RPRFS", "BUF_FIFO", "BUF_LIFO", "FLEET", "SBELT_ACC", "CBELT_ACC"):
+        n = 2 if s.endswith("ACC") else 3
+        k = 1 if s.endswith("ACC") else 0
+        jobs.append(m1(s, family, n, k if q else k + 1, oracles, 8 if q else 40, R2=2 if q else 1, USE=True, TR=False, S=0, ITEMS="equal", name=f"M1/{s}/{family}/equal-valued-items"))
+    for s in ("RRS", "BUF_FIFO", "FLEET", "CBELT_ACC"):
+        n = 2 if s.endswith("ACC") else 3
+        k = 1 if s.endswith("ACC") else 0
+        jobs.append(m1(s, family, n, k, oracles, 6 if q else 30, R2=2, USE=True, TR=False, S=0, ITEMS="falsy", name=f"M1/{s}/{family}/falsy-items"))
+    return jobs
+
+
 def twin_m1(store="RPRS", family="retrieval"):
     def f(tier):
         return ("vfy.m1", "scenario", dict(store=store, family=family, N=2, K=1, oracles=("TWIN",), twin=True))
@@ -97,7 +112,7 @@ PROPS["C01"] = {
 PROPS["C02"] = {
     "explanation": "Same engine and scenarios as C01 on the retrieval side: identity ledger put = got + inside (inside read from items/ready_items) after every "
                    "call; every granted retrieval is backed by its own free available item (reference binding); a get with a granted reservation never raises.",
-    "jobs": lambda tier: _jobs_store_family(("C02",), "retrieval", "retrieval", tier),
+    "jobs": lambda tier: _jobs_store_family(("C02",), "retrieval", "retrieval", tier) + _jobs_item_kinds(("C02",), "retrieval", tier),
     "required_witnesses": ["C02:get-checked", "cancel-granted-get"],
     "nontrivial_witnesses": ["complete"],
     "twin": twin_m1("BUF_FIFO", "retrieval"),
@@ -158,7 +173,7 @@ PROPS["C06"] = {
     "explanation": "Same engine; the harness keeps the order in which items became available and, when a retrieval reservation is granted, computes the "
                    "reference binding (FIFO: earliest available unbound item; LIFO: latest; filter store: earliest unbound item satisfying the filter, "
                    "thresholds symbolic). The item later returned by get(token) must be the reference item, also after cancellations of granted reservations.",
-    "jobs": lambda tier: _jobs_store_family(("C06",), "retrieval", "retrieval", tier),
+    "jobs": lambda tier: _jobs_store_family(("C06",), "retrieval", "retrieval", tier) + _jobs_item_kinds(("C06",), "retrieval", tier),
     "required_witnesses": ["C06:get-checked", "cancel-granted-get"],
     "nontrivial_witnesses": ["complete"],
     "twin": twin_m1("BUF_LIFO", "retrieval"),
